@@ -44,6 +44,21 @@ def all_cuts(ctx):
             out.append((lang, text[:i]))
         for i in range(1, len(text)):
             out.append((lang, text[i:]))
+    # member positions: programs made of every kind of body a brace language has, with header-shaped members directly
+    # after `{`, after `,`, after `;` and after `}`, with and without modifiers (modifier-less constructors as first
+    # member, enum constants with arguments and class bodies, object-literal methods): every prefix and suffix that is cut
+    # at a token boundary
+    from gen import programs
+    rnd = ctx.rng("c03members")
+    for lang in sorted(programs.MEMBER_CONTAINERS):
+        for _ in range(ctx.pick(1, 8)):
+            text = programs.member_program(lang, rnd, ctx.pick(3, None))
+            cuts = [i for i in range(1, len(text)) if not (text[i - 1].isalnum() and text[i].isalnum()) and not (text[i - 1] == " " and text[i] == " ")]
+            out.append((lang, text))
+            for i in cuts:
+                out.append((lang, text[:i]))
+                out.append((lang, text[i:]))
+                ctx._c03members = getattr(ctx, "_c03members", 0) + 2
     return out
 
 
@@ -479,11 +494,12 @@ def _correspond_main(ctx):
     fails += lcfails
     dist["sequences_of_words_new_in_the_source_in_header_slots"] = len(nws)
     dist["comment_texts"] = {"programs": len(ccs), "aimed_at_regular_expressions_new_in_the_source": npumps, "time_limit_s": TIME_LIMIT}
+    dist["member_position_cuts"] = getattr(ctx, "_c03members", 0)
     dist["byte_order_mark"] = sum(1 for (_, c) in cs if c.startswith(scan_streams.BOM))
     dist["without_any_newline"] = sum(1 for (_, c) in cs if "\n" not in c)
     return {
         "evaluations": len(cs) + len(runs) + nlong, "distinct_nontrivial": len(nontrivial) + len(runs) + nlong,
-        "rule": "FIRST LINES: files whose NAME Pygments maps to no lexer (no extension, hidden, trailing dot, the string literals new in the source as names; controls named for the seven languages) x every prefix of a first line (interpreter lines `#!...python/node/ts-node/sh`, `env` forms, encoding / mode lines, a byte order mark, lines built from the words new in the source), alone / with LF / CR LF / blank + LF / followed by a small program, in one tree through Scanner.scan_path and one by one through commands.check.check_file; every in-process analysis runs under a time limit (20 s per text of the small streams, 60 s + 0.5 ms per character on the single-line ladder; no result in time = the property's `hang`); comment stream: small programs around one comment put together from the syntax of many languages, rulers of 3 .. 100 characters, string literals of the code under check and, for regular expressions new in the source, their literal runs mixed with long runs of each of their characters; words that are new in the source: every sequence of up to 3 (thorough: 4) of them and ( ) { between parameter list and body / inside the parameter list of a function of each language; CLI tree: also files of 2-4 long functions whose names are drawn with replacement (same name, same length); single-line ladder: files of 10^2 .. 3.2*10^6 characters on ONE line (string literal, block comment followed by a function, short statements, one-line function; without any newline / with a final newline / as second line; a quarter behind a byte order mark) analysed in-process and, for a sample, through `codelimit scan|check` subprocesses; a share of the malformed stream behind a byte order mark / on one line / with a Unicode separator; malformed stream (every kind of prefix/suffix/edit of canonical programs and corpus files, token soups per language, tiny inputs, deep nesting up to the stated depth) analysed in-process, compared with the model; plus %d subprocess runs of `python -m codelimit scan|check` over a tree of such files incl. non-UTF-8 and empty files, named relatively, absolutely, via directories and from other working directories; non-trivial = inputs analysed to completion" % len(runs),
+        "rule": "MEMBER POSITIONS: per brace language programs made of every kind of body it has (type / enum / interface / record / namespace bodies, object literals, initialiser lists, anonymous classes), with header-shaped members directly after `{`, after `,`, after `;` and after `}`, with and without modifiers or return types (modifier-less constructors as first member, enum constants with arguments and nested class bodies, object-literal methods), and every prefix and suffix of them cut at a token boundary; FIRST LINES: files whose NAME Pygments maps to no lexer (no extension, hidden, trailing dot, the string literals new in the source as names; controls named for the seven languages) x every prefix of a first line (interpreter lines `#!...python/node/ts-node/sh`, `env` forms, encoding / mode lines, a byte order mark, lines built from the words new in the source), alone / with LF / CR LF / blank + LF / followed by a small program, in one tree through Scanner.scan_path and one by one through commands.check.check_file; every in-process analysis runs under a time limit (20 s per text of the small streams, 60 s + 0.5 ms per character on the single-line ladder; no result in time = the property's `hang`); comment stream: small programs around one comment put together from the syntax of many languages, rulers of 3 .. 100 characters, string literals of the code under check and, for regular expressions new in the source, their literal runs mixed with long runs of each of their characters; words that are new in the source: every sequence of up to 3 (thorough: 4) of them and ( ) { between parameter list and body / inside the parameter list of a function of each language; CLI tree: also files of 2-4 long functions whose names are drawn with replacement (same name, same length); single-line ladder: files of 10^2 .. 3.2*10^6 characters on ONE line (string literal, block comment followed by a function, short statements, one-line function; without any newline / with a final newline / as second line; a quarter behind a byte order mark) analysed in-process and, for a sample, through `codelimit scan|check` subprocesses; a share of the malformed stream behind a byte order mark / on one line / with a Unicode separator; malformed stream (every kind of prefix/suffix/edit of canonical programs and corpus files, token soups per language, tiny inputs, deep nesting up to the stated depth) analysed in-process, compared with the model; plus %d subprocess runs of `python -m codelimit scan|check` over a tree of such files incl. non-UTF-8 and empty files, named relatively, absolutely, via directories and from other working directories; non-trivial = inputs analysed to completion" % len(runs),
         "samples": [{"language": l, "code": c[:100], "impl": r[:80]} for (l, c), r in list(zip(cs, real))[7:10]] + runs[:4],
         "exhaustive": False, "distribution": dist,
         "disagreements": dis[:50], "oracle_failures": fails[:50],
